@@ -7,8 +7,10 @@ import (
 	"go/ast"
 	"go/token"
 	"go/types"
+	"regexp"
 	"sort"
 	"strings"
+	"text/template/parse"
 )
 
 func init() { register("C16", checkC16) }
@@ -216,6 +218,7 @@ func checkC16(ctx *Ctx, r *Report) {
 	c16ConstantBranchesAgree(ctx, r)
 	c09ConstraintsThroughReferences(ctx, r)
 	c10ConstantRefToEnum(ctx, r)
+	c16SecondHunt(ctx, r)
 }
 
 func isConstRefSkip(info *types.Info, cond ast.Expr) bool {
@@ -552,5 +555,160 @@ func c16ConstantBranchesAgree(ctx *Ctx, r *Report) {
 		r.Check(same, "siblings/constant-branches-agree", fmt.Sprintf("structObjectToBuilder constant branch #%d", i+1), b.is.Pos(),
 			"the branch puts the same demands on the field (required / nullable) as the other constant branches",
 			"this constant branch also demands ["+strings.Join(b.extra, ", ")+"] of the field while another one demands ["+strings.Join(branches[0].extra, ", ")+"]: a field fixed by the schema that fails the extra test falls through to the option branch — an optional reference to a constant becomes an option whose argument is typed by the constant (`func OptC(optC Const)`: Const is not a type)")
+	}
+}
+
+// c16SecondHunt — a builder has to be usable for every object that resolves to a struct, aliases included.
+// (a) Go: a field referring to a constant is declared with the constant's own type (golang.formatField): the
+// assignment templates must not take the address of a constant they assign to such a field — the conditions that
+// decide `&val…` / `val… :=` mention IsConcreteScalar. (b) Go: the builder of an alias calls New<Alias>(): the
+// constructor generator decides "is it a struct" on the resolved type, so that an alias of an alias gets one.
+// (c) Python: an alias is a string at run time (`typing.TypeAlias = 'Inner'`): what __init__ instantiates is computed
+// by following the references, not the alias's own name.
+func c16SecondHunt(ctx *Ctx, r *Report) {
+	// (a)
+	if ts, err := loadTemplates(ctx, "golang"); err != nil {
+		r.Undecided("templates of golang: %v", err)
+	} else {
+		n := 0
+		for _, name := range []string{"assignment_value", "assignment_setup"} {
+			tree := ts.trees[name]
+			if tree == nil {
+				r.Undecided("anchor lost: golang template %q", name)
+				continue
+			}
+			decls := varDecls(tree.Root)
+			walkTmpl(tree.Root, func(m parse.Node) bool {
+				in, ok := m.(*parse.IfNode)
+				if !ok || in.List == nil {
+					return true
+				}
+				// the then-part writes the address of / declares the constant's variable, directly
+				direct := false
+				text := ""
+				for _, c := range in.List.Nodes {
+					switch x := c.(type) {
+					case *parse.TextNode:
+						text += string(x.Text)
+						if strings.Contains(text, "val") && strings.Contains(text, ":=") {
+							direct = true
+						}
+					case *parse.ActionNode:
+						if strings.Contains(x.String(), `"&val"`) {
+							direct = true
+						}
+					}
+				}
+				if !direct {
+					return true
+				}
+				n++
+				cond := in.Pipe.String()
+				for i := 0; i < 2; i++ {
+					cond = regexp.MustCompile(`\$[A-Za-z0-9_]+`).ReplaceAllStringFunc(cond, func(v string) string {
+						if d, ok := decls[v]; ok {
+							return "(" + d + ")"
+						}
+						return v
+					})
+				}
+				r.Check(strings.Contains(cond, "IsConcreteScalar"), "skeleton/go-constant-field-not-pointer", fmt.Sprintf("golang %s pointer decision #%d", name, n), token.NoPos,
+					ts.posOf(ctx, name, in)+": references to constants are excluded, as golang.formatField declares them by value",
+					ts.posOf(ctx, name, in)+": the constant is assigned through a pointer whenever the target is nullable ("+in.Pipe.String()+"): a field referring to a constant is declared with the constant's own type (`OptC string`) even when optional — `builder.internal.OptC = &valOptC` does not compile")
+				return true
+			})
+		}
+		r.Count("pointer decisions for constants in the Go assignment templates", n)
+		r.Floor("pointer decisions for constants in the Go assignment templates", 2)
+	}
+	// (b)
+	if fn := ctx.LookupMethod("internal/jennies/golang", "RawTypes", "generateConstructor"); fn == nil {
+		r.Undecided("anchor lost: golang.RawTypes.generateConstructor")
+	} else {
+		fd, p := ctx.DeclOf(fn)
+		info := p.TypesInfo
+		n := 0
+		ast.Inspect(fd.Body, func(m ast.Node) bool {
+			is, ok := m.(*ast.IfStmt)
+			if !ok {
+				return true
+			}
+			c, ok := ast.Unparen(is.Cond).(*ast.CallExpr)
+			if !ok {
+				return true
+			}
+			if f := callee(info, c); f == nil || f.Name() != "IsRef" {
+				return true
+			}
+			ast.Inspect(is.Body, func(q ast.Node) bool {
+				call, ok := q.(*ast.CallExpr)
+				if !ok {
+					return true
+				}
+				f := callee(info, call)
+				if f == nil || f.Name() != "IsStruct" {
+					return true
+				}
+				n++
+				sel, _ := call.Fun.(*ast.SelectorExpr)
+				resolved := false
+				if sel != nil {
+					if rc, ok := ast.Unparen(sel.X).(*ast.CallExpr); ok {
+						if rf := callee(info, rc); rf != nil && strings.HasPrefix(rf.Name(), "Resolve") {
+							resolved = true
+						}
+					}
+				}
+				r.Check(resolved, "skeleton/go-alias-constructor-chain", "golang.generateConstructor alias branch tests the resolved type", call.Pos(), "an alias of an alias of a struct gets a constructor",
+					"the constructor of an alias is only written when the object it refers to is a struct itself ("+exprString(call)+"): for `A2: A1`, `A1: Inner` there is no NewA2(), which the builder of A2 calls — undefined: NewA2")
+				return true
+			})
+			return false
+		})
+		r.Count("struct tests in the alias branch of the Go constructor", n)
+		r.Floor("struct tests in the alias branch of the Go constructor", 1)
+	}
+	// (c)
+	if ts, err := loadTemplates(ctx, "python"); err != nil {
+		r.Undecided("templates of python: %v", err)
+	} else if tree := ts.trees["builders/builder.tmpl"]; tree == nil {
+		r.Undecided("anchor lost: python template builders/builder.tmpl")
+	} else {
+		instantiated := ""
+		var prev parse.Node
+		walkTmpl(tree.Root, func(m parse.Node) bool {
+			if an, ok := m.(*parse.ActionNode); ok {
+				if t, ok := prev.(*parse.TextNode); ok && strings.HasSuffix(strings.TrimRight(string(t.Text), " "), "self._internal =") {
+					instantiated = an.Pipe.String()
+				}
+			}
+			switch m.(type) {
+			case *parse.TextNode, *parse.ActionNode:
+				prev = m
+			}
+			return true
+		})
+		followed := false
+		if fn := ctx.LookupMethod("internal/jennies/python", "Builder", "generateBuilder"); fn != nil {
+			if fd, p := ctx.DeclOf(fn); fd != nil {
+				ast.Inspect(fd.Body, func(m ast.Node) bool {
+					if lp, ok := m.(*ast.ForStmt); ok {
+						ast.Inspect(lp, func(q ast.Node) bool {
+							if c, ok := q.(*ast.CallExpr); ok {
+								if f := callee(p.TypesInfo, c); f != nil && strings.HasPrefix(f.Name(), "LocateObject") {
+									followed = true
+								}
+							}
+							return true
+						})
+					}
+					return true
+				})
+			}
+		}
+		r.Count("instantiations in the Python builder template", 1)
+		r.Check(instantiated != "" && instantiated != ".ObjectName" && instantiated != ".BuilderSignatureType" && followed, "skeleton/python-alias-builder-instantiates-struct", "python builder __init__ instantiates the class at the end of the alias chain", token.NoPos,
+			"__init__ instantiates "+instantiated+", computed by following the references",
+			"__init__ instantiates the built object's own name ("+instantiated+"): for an alias (`AliasInner: typing.TypeAlias = 'Inner'`, a string at run time) the builder raises TypeError: 'str' object is not callable")
 	}
 }
